@@ -348,9 +348,12 @@ fn walk(
                     Some(token_for(oc, &key, inv))
                 };
                 match e {
-                    ScEv::StepPassed { loc, .. } => {
+                    ScEv::StepPassed { loc, cap0, ngroups, .. } => {
                         if let Some(Some(t)) = &expected_tok {
                             return Err(("step-result", format!("step `{}` panics with {t:?} in the plan, observed Passed", st.text)));
+                        }
+                        if *cap0 != Some((0, st.text.len())) || *ngroups != 1 {
+                            return Err(("step-captures", format!("Passed event of `{}` carries capture locations {cap0:?} / {ngroups} groups, the definition matches the whole text with no group", st.text)));
                         }
                         if *loc != Some(OK_LOC.line) {
                             return Err(("step-location", format!("Passed event location {loc:?}, expected {:?}", OK_LOC.line)));
